@@ -59,15 +59,18 @@ TNote    == Is("note")    /\ UNCHANGED kvvars
 
 TraceInit == KVInit /\ l = 1 /\ TLCSet(1, 1)
 
-TraceNext ==
-  /\ l <= Len(Trace)
-  /\ l' = l + 1
-  /\ \/ Reset \/ TWrite \/ TGet \/ THas \/ TCompact
+KVStep ==
+     \/ Reset \/ TWrite \/ TGet \/ THas \/ TCompact
      \/ TSnap \/ TSnapGet \/ TSnapHas \/ TSnapRel
      \/ TIterNew \/ TIter \/ TIterRel
      \/ TTxOpen \/ TTxWrite \/ TTxGet \/ TTxHas \/ TTxCommit \/ TTxDiscard
      \/ TClose \/ TReopen \/ TSetRO \/ TNote \/ TMisc \/ TOpen2 \/ TQuiet \/ TIntact
-  /\ TLCSet(1, IF TLCGet(1) < l' THEN l' ELSE TLCGet(1))
+
+Advance == l <= Len(Trace) /\ l' = l + 1
+\* evaluated only after the step's own conjuncts held: the register is the highest line number reached
+Mark    == TLCSet(1, IF TLCGet(1) < l' THEN l' ELSE TLCGet(1))
+
+TraceNext == Advance /\ KVStep /\ Mark
 
 TraceSpec == TraceInit /\ [][TraceNext]_tvars
 
